@@ -26,7 +26,7 @@ class Case:
 
 class Contract:
     def __init__(self, qualname, *, cases, spec=None, requires=None, raises=(), props=(), layer=1,
-                 post=None, inline=(), doc=""):
+                 post=None, inline=(), doc="", invoke=None):
         self.qualname = qualname
         self.cases = cases            # list[Case]; Case.build(engine) -> (args tuple, kwargs dict)
         self.spec = spec              # spec(*args, **kwargs) -> expected value (also used by the stub)
@@ -37,8 +37,10 @@ class Contract:
         self.post = post              # extra post-condition: post(engine, result, *args, **kwargs)
         self.inline = set(inline)     # qualnames NOT to stub while verifying this contract
         self.doc = doc
+        self.invoke = invoke          # how the harness reaches the function (e.g. through a carrier subclass)
         self.owner, self.attr, self.orig = resolve(qualname)
         self.sig = inspect.signature(self.orig)
+        self.is_init = self.attr == "__init__"
         REGISTRY[qualname] = self
 
     # ---------------------------------------------------------------- binding
@@ -56,7 +58,7 @@ class Contract:
             args, kwargs = c.bind(args, kwargs)
             e.assumptions_used.add(f"callee-by-contract: {c.qualname}")
             if c.requires is not None:
-                for nm, cond in c.requires(*args, **kwargs):
+                for nm, cond in (c.requires(*args, **kwargs) if not c.is_init else c.requires(*args[1:], **kwargs)):
                     if isinstance(cond, Assumed):
                         e.assumptions_used.add(f"assumed at call sites of {c.qualname}: {nm}")
                         continue
@@ -65,9 +67,14 @@ class Contract:
                         continue
                     e.prove(f"call-site requires of {c.qualname}: {nm}", cond, kind="requires")
             for exc, cond in c.raises:
-                if bool(mk_bool(cond(*args, **kwargs))):
+                cv = cond(*args, **kwargs) if not c.is_init else cond(*args[1:], **kwargs)
+                if bool(mk_bool(cv)):
                     raise exc(f"[stub of {c.qualname}] documented rejection")
-            r = c.spec(*args, **kwargs)
+            r = c.spec(*args, **kwargs) if not c.is_init else c.spec(*args[1:], **kwargs)
+            if c.is_init:  # __init__ of a base class: set the fields on self
+                for k, v in r.fields.items():
+                    setattr(args[0], k, v.obj if isinstance(v, Opaque) else v)
+                return None
             return r.build() if isinstance(r, ObjSpec) else r
         stub.__name__ = f"stub_{self.attr}"
         stub.__contract__ = self
@@ -243,7 +250,7 @@ def elem_eq(a, b):
 def compare(e: Engine, name, got, exp, *, enumerate_small=True):
     """emit the obligations `got == exp` (deep)"""
     if isinstance(exp, ObjSpec):
-        if exp.check_type:
+        if exp.check_type and exp.cls is not None:
             e.prove(f"{name}: type is {exp.cls.__name__}", type(got) is exp.cls, kind="ensures")
         for k, v in exp.fields.items():
             if not hasattr(got, k):
@@ -353,8 +360,16 @@ def verify_contract(c: Contract, *, only_case=None):
                 args, kwargs, ctx = built
             else:
                 args, kwargs = built if isinstance(built, tuple) and len(built) == 2 and isinstance(built[1], dict) else (built, {})
-            fn = c.orig
-            bargs, bkw = c.bind(args, kwargs)
+            fn = c.invoke or c.orig
+            if c.invoke is not None:
+                bargs, bkw = args, kwargs
+                try:
+                    bargs, bkw = c.bind((None,) + tuple(args), kwargs)
+                    bargs = bargs[1:]
+                except TypeError:
+                    pass
+            else:
+                bargs, bkw = c.bind(args, kwargs)
             if c.requires is not None:
                 for nm, cond in c.requires(*bargs, **bkw):
                     if isinstance(cond, (Assumed, ForAll)):
